@@ -380,7 +380,7 @@ class Impl:
     def prepare_message(self, t, args, kwargs):
         return res_of(lambda: self.Colorizer.prepare_message(t, args, kwargs).stripped)
 
-    def emit(self, fmt, dynamic, colorize, msg, args=(), kwargs=None, raw=False, patch=None, exception=None):
+    def emit(self, fmt, dynamic, colorize, msg, args=(), kwargs=None, raw=False, patch=None, exception=None, colors=False):
         """text handed to a callable sink added with format=fmt; ('adderr', kind) when add() refuses"""
         out = []
         kw = {} if kwargs is None else kwargs
@@ -393,8 +393,8 @@ class Impl:
             log = self.logger
             if patch is not None:
                 log = log.patch(patch)
-            if raw or exception is not None:
-                log = log.opt(raw=raw, exception=exception)
+            if raw or exception is not None or colors:
+                log = log.opt(raw=raw, exception=exception, colors=colors)
             try:
                 log.info(msg, *args, **kw)
             except Exception as e:  # noqa
@@ -769,17 +769,25 @@ def check_message(ctx, impl, t, args, kwargs, stream, colors):
     return False
 
 
-def check_emit(ctx, impl, extra, t, dynamic, colorize, raw, msg, margs):
-    """direct oracle for one handler format: emitted text == Python's format_map over the record"""
+def check_emit(ctx, impl, extra, t, dynamic, colorize, raw, msg, margs, cmsg=None):
+    """direct oracle for one handler format: emitted text == Python's format_map over the record.
+    `cmsg` (round 5): the same message WITH colour markup in its literal text, logged through opt(colors=True);
+    the visible text (ANSI codes removed) must be the same"""
     log = impl.logger.bind(**extra)
     saved, impl.logger = impl.logger, log
     try:
-        got, rec = impl.emit(t, dynamic, colorize, msg, args=margs, raw=raw)
+        got, rec = impl.emit(t, dynamic, colorize, cmsg if cmsg is not None else msg, args=margs, raw=raw, colors=cmsg is not None)
     finally:
         impl.logger = saved
+    if cmsg is not None and got[0] == "ok":
+        if not colorize and "\x1b" in got[1]:
+            ctx.violation("handler format %r (colorize=False) emitted ANSI codes for a coloured message: %r" % (t, got),
+                          {"stream": "emit", "format": t, "dynamic": dynamic, "colorize": colorize, "raw": raw, "message": msg,
+                           "margs": list(margs), "cmsg": cmsg, "expected": "no ANSI code", "observed": list(got)})
+        got = ("ok", ANSI_RE.sub("", got[1]))
     full = t if dynamic else t + "\n{exception}"
     rep = {"stream": "emit", "format": t, "dynamic": dynamic, "colorize": colorize, "raw": raw, "message": msg,
-           "margs": list(margs)}
+           "margs": list(margs), "cmsg": cmsg}
     if got[0] == "adderr":
         ctx.stat("emit:add_refused")
         fake = {"message": "m", "level": types.SimpleNamespace(name="INFO", no=20, icon="i"), "extra": extra,
@@ -1213,9 +1221,17 @@ def _run(ctx, rng, drv, boost, impl):
         margs = ()
         if rng.chance(20):
             msg, margs = "v={}", (rng.below(100),)
-        ctx.case(("emit", t, dynamic, colorize, raw, msg), nontrivial=nontrivial(t))
+        cmsg = None
+        if margs and rng.chance(50) and not any(nm.split(".")[0].split("[")[0] == "message" and (lvl >= 1 or sp) for lvl, nm, sp in fields_at(t)) \
+                and not any(nm == "message" and cv for _l, nm, _s, cv in parse_lenient(t) if nm is not None):
+            # the same call with colour markup in the message (a spec / conversion on a coloured {message} is F10, area Markup)
+            cmsg = rng.choice(["<red>v</red>={}", "v=<b>{}</b>", "<level>v={}</level>", "v\\<b>={}"])
+            msg = cmsg.replace("<red>", "").replace("</red>", "").replace("<b>", "").replace("</b>", "").replace("<level>", "") \
+                .replace("</level>", "").replace("\\<", "<") if "\\<" not in cmsg else "v<b>={}"
+            ctx.stat("emit:coloured-message")
+        ctx.case(("emit", t, dynamic, colorize, raw, msg, cmsg), nontrivial=nontrivial(t))
         ctx.stat("emit:%s%s%s" % ("dynamic" if dynamic else "static", "+colorize" if colorize else "", "+raw" if raw else ""))
-        got = check_emit(ctx, impl, extra, t, dynamic, colorize, raw, msg, margs)
+        got = check_emit(ctx, impl, extra, t, dynamic, colorize, raw, msg, margs, cmsg=cmsg)
         if i < 2:
             ctx.sample({"stream": "emit", "format": t, "dynamic": dynamic, "colorize": colorize, "emitted": str(got[1])[:120]})
 
@@ -1459,7 +1475,7 @@ def _replay(ctx, r, impl):
         col = Collect()
         extra = {"k": "v1", "n": 42, "o": Pt(), "w": 9}
         g = check_emit(col, impl, extra, r["format"], r.get("dynamic", False), r.get("colorize", False), r.get("raw", False),
-                       r.get("message", "hello"), tuple(r.get("margs", ())))
+                       r.get("message", "hello"), tuple(r.get("margs", ())), cmsg=r.get("cmsg"))
         print("format=%r dynamic=%r colorize=%r raw=%r message=%r" % (r["format"], r.get("dynamic"), r.get("colorize"),
                                                                       r.get("raw"), r.get("message")))
         print("implementation:", g)
